@@ -75,6 +75,7 @@ def _verify_one(a):
     for o in obls:
         o.detail = json.loads(json.dumps(o.detail, default=str))
         o.detail['lib_models_used'] = sorted(models.LIB_USED)
+        o.detail['callee_contracts_used'] = sorted(models.CALLEE_MODELS_USED)
     return obls
 
 
@@ -142,6 +143,28 @@ def finish(rep, level='proof'):
         s = 'library contract (trusted): ' + l
         if s not in rep.trusted:
             rep.trusted.append(s)
+    # mechanical scan: every repository function that was replaced by a contract / call-site model at a call in this
+    # run, and whether the body of that function was verified against a contract in this same run
+    callees = set(models.CALLEE_MODELS_USED)
+    for o in rep.obls:
+        for q in (o.detail or {}).get('callee_contracts_used', []) if isinstance(o.detail, dict) else []:
+            callees.add(q)
+    verified_here = set(rep.functions) | {o.fn for o in rep.obls if o.fn and o.kind == 'smt'}
+    try:
+        from pyvc.spec import REG
+        has_body_contract = {q for (q, _c) in REG.cases}
+    except Exception:       # noqa
+        has_body_contract = set()
+    for q in sorted(callees):
+        if q in verified_here:
+            continue
+        if q in has_body_contract:
+            a = ('callee used through its contract at call sites; its body is verified against that contract in another '
+                 'check, not in this run: ' + q)
+        else:
+            a = ('ASSUMED callee contract (frame / result-shape model written by hand, body not verified against it): ' + q)
+        if a not in rep.assumptions:
+            rep.assumptions.append(a)
     extra = None
     if rep.tier == 'thorough' and not os.environ.get('VERIF_NO_SELFTEST') and not os.environ.get('VERIF_PROOF_ONLY'):
         from props import selftest
